@@ -11,6 +11,8 @@ from .common import HarnessError, assert_repo, digest
 
 
 def _copy_container(c):
+    if isinstance(c, dict) and any(isinstance(v, dict) and any(isinstance(x, (dict, list, set)) for x in v.values()) for v in c.values()):
+        return _deep_copy_container(c)
     if isinstance(c, dict):
         out = {}
         for k, v in c.items():
@@ -45,6 +47,28 @@ def _restore_container(c, saved):
     elif isinstance(c, set):
         c.clear()
         c.update(saved)
+
+
+def flat(container, depth=0):
+    """Leaves of a registry, whatever its nesting ({key: obj} today; {a: {b: obj}} after a
+    refactor): dict / list / set / tuple levels are descended, anything else is a leaf."""
+    if isinstance(container, dict):
+        container = container.values()
+    for v in list(container):
+        if isinstance(v, (dict, list, set, tuple)) and depth < 4:
+            yield from flat(v, depth + 1)
+        else:
+            yield v
+
+
+def _deep_copy_container(c, depth=0):
+    if isinstance(c, dict):
+        return {k: (_deep_copy_container(v, depth + 1) if isinstance(v, (dict, list, set)) and depth < 4 else v) for k, v in c.items()}
+    if isinstance(c, list):
+        return list(c)
+    if isinstance(c, set):
+        return set(c)
+    return c
 
 
 class Snapshot:
@@ -156,8 +180,8 @@ class World:
         out = []
         seen = set()
         for cls in self.classes():
-            for obj in list(cls._known.values()):
-                if id(obj) not in seen:
+            for obj in flat(cls._known):
+                if isinstance(obj, cls) and id(obj) not in seen:
                     seen.add(id(obj))
                     out.append(obj)
         return out
@@ -231,12 +255,19 @@ class World:
             ),
             key=repr,
         )
+        def keyed(cls):
+            # (registry key, object) where the registry is flat, (None, object) otherwise
+            items = list(cls._known.items())
+            if all(isinstance(v, cls) for _, v in items):
+                return items
+            return [(None, v) for v in flat(cls._known) if isinstance(v, cls)]
+
         dims = sorted(
-            ((k, d.name, d.symbol, tuple(d.exponents)) for k, d in m.Dimension._known.items()),
+            ((k, d.name, d.symbol, tuple(d.exponents)) for k, d in keyed(m.Dimension)),
             key=repr,
         )
         prefixes = sorted(
-            ((k, p.name, p.symbol) for k, p in m.Prefix._known.items()), key=repr
+            ((k, p.name, p.symbol, (p.base, p.exponent)) for k, p in keyed(m.Prefix)), key=repr
         )
         by = {
             "Unit._by_name": sorted((n, self.ukey(u)) for n, u in m.Unit._by_name.items()),
@@ -273,8 +304,9 @@ class World:
         )
         logs = sorted(
             (
-                (repr(k[0]), (k[1].base, k[1].exponent), l.name, l.symbol)
-                for k, l in m.Logarithm._known.items()
+                (repr(l.base), (l.prefix.base, l.prefix.exponent), l.name, l.symbol)
+                for l in flat(m.Logarithm._known)
+                if isinstance(l, m.Logarithm)
             ),
             key=repr,
         )
@@ -286,7 +318,7 @@ class World:
             "ratios": ratios,
             "offsets": offsets,
             "logs": logs,
-            "n_logunits": len(m.LogarithmicUnit._known),
+            "n_logunits": sum(1 for _ in flat(m.LogarithmicUnit._known)),
         }
 
     def registry_digest(self):
